@@ -1,11 +1,11 @@
 CONSTANTS
-  RFiles <- MFiles
+  RFiles <- MListedNoSelf
   RTok <- MTok
   REnc = {"secret"}
   RSig = {"(signature)"}
   REmpty = {"empty"}
   RHetBet = FALSE
-  RUnlisted = {}
+  RUnlisted <- MUnlisted
 SPECIFICATION DesignSpec
 INVARIANT TargetEnumerable TargetExact ListOnlyNoTarget CountsTruthful SkippedOnlyByOption VerifyMeansEqual NeverFails
 PROPERTY Terminates
